@@ -326,12 +326,17 @@ func additive(symbols []pr.IntNamedString, value int) (string, bool) {
 				return symbol(vs.NamedString), true
 			}
 		}
+		// without a tuple of weight zero, 0 can't be represented
+		return "", false
 	}
 	if len(symbols) == 0 {
 		return "", false
 	}
 	var parts []string
 	for _, vs := range symbols {
+		if vs.Int == 0 || vs.Int > value {
+			continue
+		}
 		repetitions := value / vs.Int
 		parts = append(parts, strings.Repeat(symbol(vs.NamedString), repetitions))
 		value -= vs.Int * repetitions
